@@ -433,6 +433,14 @@ def diff_case(case: Case, rng, res, n_random=4, n_models=2, unknown_p=0.0, recor
         if unknown:
             res["counters"]["oracle_timeouts"] += 1
             continue
+        excl = getattr(case, "exclude_input", None)
+        if excl is not None and admitting:
+            # generator-specific exclusions of degenerate inputs (e.g. an input address that equals an address halmos assigns to a new contract)
+            kept = [(p, k, v) for (p, k, v) in admitting if not excl(inp, [c for c in p.creates])]
+            if not kept:
+                res["counters"]["inputs_excluded_by_generator_rule"] += 1
+                continue
+            admitting = kept
         # reference run(s): one per distinct creation-address script among the admitting paths
         scripts = {}
         for p, keys, vals in admitting or [(None, None, None)]:
